@@ -21,8 +21,8 @@ import (
 )
 
 // hangLimit is a hang detector, never a schedule: the unchanged tree needs
-// microseconds where this allows 20 s.
-const hangLimit = 20 * time.Second
+// microseconds where this allows 10 s.
+const hangLimit = 10 * time.Second
 
 // graceYields is how often the harness yields the processor before it lets a
 // callee return and before it takes the final snapshot, so that calls the
@@ -219,30 +219,58 @@ func (w *world) result() event {
 	return event{}
 }
 
-// waitStarted waits until the first call of a planned callee was entered.
-// hung: the hang limit expired.  A dispatcher that has already returned nil
-// cannot make the call any more in a way the property allows, so the wait is
-// cut short in that case.
-func (w *world) waitStarted(c *callee) (ok, hung bool) {
+type waitRes int
+
+const (
+	wStarted     waitRes = iota // the call was entered
+	wReturnedNil                // the dispatcher returned nil first
+	wPanicked                   // the dispatcher panicked first
+	wEgoFirst                   // the call on the egoistic ledger was entered first
+	wHung                       // the hang limit expired
+)
+
+// waitStarted waits until the first call of the planned callee c was entered.
+// ego is the planned callee of the egoistic ledger while c belongs to the
+// other ledgers (nil otherwise).  The wait is cut short when it cannot end
+// well any more: a dispatcher that has returned nil (or panicked) will not
+// make the call in a way the property allows, and an egoistic call that is
+// entered while c has not even been entered is already out of order (the
+// harness has not let c return yet).
+func (w *world) waitStarted(c, ego *callee) waitRes {
 	if isClosed(c.started) {
-		return true, false
+		return wStarted
 	}
 	t := time.NewTimer(hangLimit)
 	defer t.Stop()
 	done := w.done
+	var egoStarted chan struct{}
+	if ego != nil {
+		egoStarted = ego.started
+	}
 	for {
 		select {
 		case <-c.started:
-			return true, false
+			return wStarted
 		case <-done:
-			if r := w.result(); r.err == nil && r.pan == nil {
-				// every evReturn is logged before the callee returns, hence
-				// before a correct dispatcher can have collected its result
-				return isClosed(c.started), false
+			// every evReturn is logged before the callee returns, hence before
+			// a correct dispatcher can have collected its result
+			if isClosed(c.started) {
+				return wStarted
 			}
-			done = nil // an error result: stragglers may still arrive
+			switch r := w.result(); {
+			case r.pan != nil:
+				return wPanicked
+			case r.err == nil:
+				return wReturnedNil
+			}
+			done = nil // an error result: the call may still arrive
+		case <-egoStarted:
+			if isClosed(c.started) {
+				return wStarted // the log decides
+			}
+			return wEgoFirst
 		case <-t.C:
-			return false, true
+			return wHung
 		}
 	}
 }
@@ -516,16 +544,28 @@ func runCase(c Case) *h.Outcome {
 	}()
 
 	var sched *h.Failure
-	for _, l := range plan {
+	lateLedger := -1 // ledger whose call had not started when the dispatcher returned nil
+schedule:
+	for i, l := range plan {
 		cal := w.callees[l]
-		ok, hung := w.waitStarted(cal)
-		if !ok {
-			if hung {
-				sched = h.Failf("call-missing", "ledger %d (%s) is registered and among the assets but its %s call did not start within %v", l, c.ledgerName(l), c.Method, hangLimit)
-			} else {
-				sched = h.Failf("call-missing", "the dispatcher returned nil without calling %s on ledger %d (%s), which is registered and among the assets", c.Method, l, c.ledgerName(l))
-			}
-			break
+		var egoCal *callee
+		if egoCalled && i < phase1 {
+			egoCal = w.callees[ego]
+		}
+		switch w.waitStarted(cal, egoCal) {
+		case wStarted:
+		case wHung:
+			sched = h.Failf("call-missing", "ledger %d (%s) is registered and among the assets but its %s call did not start within %v", l, c.ledgerName(l), c.Method, hangLimit)
+			break schedule
+		case wReturnedNil:
+			lateLedger = l
+			sched = h.Failf("call-missing", "%s returned nil without a call on ledger %d (%s), which is registered and among the assets", c.Method, l, c.ledgerName(l))
+			break schedule
+		case wPanicked:
+			break schedule // reported from the log
+		case wEgoFirst:
+			sched = h.Failf("ego-funded-early", "egoistic index %d selects ledger %d (%s); its Fund call started before the Fund call on ledger %d (%s) had started", c.Ego, ego, c.ledgerName(ego), l, c.ledgerName(l))
+			break schedule
 		}
 		yield()
 		close(cal.gate)
@@ -634,6 +674,10 @@ func runCase(c Case) *h.Outcome {
 	if ego >= 0 && !egoCalled && c.Ledgers[ego].Reg && calls[ego] > 0 {
 		o.Fail = h.Failf("ego-funded-despite-failure", "egoistic index %d selects ledger %d (%s); it was funded although another ledger of the channel is unregistered or failed", c.Ego, ego, c.ledgerName(ego))
 		return o
+	}
+	if lateLedger >= 0 && calls[lateLedger] > 0 {
+		// the call was made after all, but the dispatcher had not waited for it
+		sched = h.Failf("nil-before-calls-returned", "%s returned nil before the forwarded call on ledger %d (%s) had started", c.Method, lateLedger, c.ledgerName(lateLedger))
 	}
 	if sched != nil {
 		o.Fail = sched
